@@ -17,7 +17,8 @@ def install(models):
     def msg_ctor(interp, timestamp=0.0, arbitration_id=0, is_extended_id=True, is_remote_frame=False,
                  is_error_frame=False, channel=None, dlc=None, data=None, is_fd=False, is_rx=True,
                  bitrate_switch=False, error_state_indicator=False, check=False):
-        if data is None:
+        if data is None or truth(is_remote_frame):
+            # python-can drops the payload of a remote frame (a CAN remote frame carries none)
             d = SBytes([], True)
         elif isinstance(data, SBytes):
             d = SBytes(data.items, True)
@@ -72,6 +73,38 @@ def install(models):
         return h(interp, s, timeout)
     models.methods[(CondModel, "wait")] = B("cond.wait", cond_wait)
 
+    # ---- queue.Queue (FIFO; an empty queue asks the environment hook for the next item) -----------
+    def queue_ctor(interp, maxsize=0):
+        return SObj(QueueModel, {"items": I.SList([])})
+    models.ctors[queue.Queue] = queue_ctor
+    models.modattrs[("queue", "Queue")] = B("queue.Queue", queue_ctor)
+    models.modattrs[("queue", "Empty")] = I.ClassVal(queue.Empty)
+
+    def q_put(interp, q, item, block=True, timeout=None):
+        q.fields["items"].items.append(item)
+
+    def q_empty(interp, q):
+        lst = q.fields["items"]
+        if lst.base is not None:
+            return V.compare("==", interp.models.builtin("len").fn(interp, lst), 0)
+        return len(lst.items) == 0
+
+    def q_get(interp, q, block=True, timeout=None):
+        lst = q.fields["items"]
+        if lst.base is not None:
+            raise Unsupported("get from a queue with unknown content")
+        if lst.items:
+            return lst.items.pop(0)
+        h = getattr(interp, "queue_get_hook", None)
+        if h is not None:
+            return h(interp, q, block, timeout)
+        raise PyRaise(SObj(queue.Empty, {"args": ()}))
+
+    def q_get_nowait(interp, q):
+        return q_get(interp, q, False)
+    for nm, fn in (("put", q_put), ("put_nowait", q_put), ("empty", q_empty), ("get", q_get), ("get_nowait", q_get_nowait)):
+        models.methods[(QueueModel, nm)] = B("Queue." + nm, fn)
+
     # real Lock / Condition objects found in pre-built real state
     def lift_foreign(interp, v):
         if isinstance(v, type(threading.Lock())) or isinstance(v, type(threading.RLock())):
@@ -83,6 +116,10 @@ def install(models):
 
 
 class LockModel:
+    pass
+
+
+class QueueModel:
     pass
 
 
